@@ -1217,6 +1217,16 @@ func respPushToNative(p respPush) []any {
 	return out
 }
 
+// reports whether the value can serve as a Go map key; aggregate RESP types
+// are backed by slices and maps, and using one as a key panics at run time
+func (rv *respValue) isHashable() bool {
+	switch rv.data.(type) {
+	case respArray, respSet, respAttributeMap, respMap, respPush, respPairs:
+		return false
+	}
+	return true
+}
+
 func respNormalizeKey(k respValue) (output respValue) {
 	str, valid := k.toString()
 	if valid {
